@@ -89,7 +89,20 @@ func (E *Engine) globalMapEntries(g *ssa.Global) []mapEntry {
 }
 
 func (E *Engine) callbackModel(x *Exec, name string) func(x *Exec, st *State, fv Val, args []Val, call *ssa.Call) []Val {
-	return nil
+	if x.ct == nil || x.ct.Ghost == "" || x.ct.Ghost != name {
+		return nil
+	}
+	return func(x *Exec, st *State, fv Val, args []Val, call *ssa.Call) []Val {
+		a := x.term(st, args[0], true)
+		st.check(x.key+"/pre/"+name, fmt.Sprintf("(not (isNilNode %s))", a), "the visitor is never called with a nil node, at "+x.pos(call.Pos()))
+		tv := st.frames[0].vars["trace"]
+		o := st.objs[tv.A.ObjID]
+		cur := o.Vals[0].T
+		nt := st.fresh("trace", "Seq_Node")
+		st.assume(fmt.Sprintf("(= %s (Seq_Node.snoc %s %s))", nt, cur, a))
+		o.Vals[0] = Val{S: "Seq_Node", T: nt}
+		return []Val{{S: "Bool", T: fmt.Sprintf("(vis %s %s)", cur, a)}}
+	}
 }
 
 // ---- static call graph -------------------------------------------------------------
